@@ -31,7 +31,8 @@ AddRecv == /\ Started /\ ~cresp /\ recvs < MaxRecv /\ RecvSafe /\ Budget /\ Op([
 AddCloseResp == /\ Started /\ ~cresp /\ (creq \/ canc # "no") /\ (h.hret = "stall" => canc # "no") /\ Budget /\ Op([op |-> "closeresp"]) /\ cresp' = TRUE
                 /\ UNCHANGED <<h, sends, recvs, creq, canc>>
 \* cancel() / deadline between two operations, or while the next operation is in progress ("during")
-AddCancel == /\ Started /\ canc = "no" /\ ~cresp
+\* (also before anything was sent: "cancelled before the call")
+AddCancel == /\ canc = "no" /\ ~cresp
              /\ \E how \in {"canceled", "expired"}, mode \in {"between", "during"} :
                   /\ prog' = Append(prog, [op |-> "cancel", how |-> how, mode |-> mode]) /\ canc' = how
              /\ UNCHANGED <<h, sends, recvs, creq, cresp, after>>
